@@ -1,0 +1,115 @@
+//go:build verif
+
+// Contracts of con-c04 for property C13 (SQL transactions: savepoint and commit plumbing only).
+// Notes: /verif/notes/con-c04.md; unit list: /verif/props/parts/con-c13.json.
+// verifAssume / verifAssert live in zz_verif_contracts.go.
+package sql
+
+import (
+	"github.com/codenotary/immudb/embedded/store"
+)
+
+// ---------------------------------------------------------------------------------------------------------
+// 6. savepoints
+//
+// sqlTx.savepoints is a Go map: for the engine a lookup yields an arbitrary (value, ok) pair and an update is a
+// no-op, so "error iff the name is unknown" is stated as far as it does not need the map contents:
+//   * no savepoint was ever created (nil map)  ==> error;
+//   * the lookup failed (local `ok` of the body) <==> error;
+//   * on error nothing is written.
+// The bookkeeping of the map itself (entry added by Savepoint, removed by Rollback/Release) is not decided.
+
+// Savepoint records the four counters and writes nothing else: in particular nothing about the store transaction
+// (number of entries, read set) is recorded, which is why RollbackToSavepoint cannot undo the writes.
+//@ func (*SQLTx).Savepoint
+//@   ensures init: sqlTx.savepoints != nil
+//@   ensures counters: sqlTx.updatedRows == old(sqlTx.updatedRows) && sqlTx.mutatedCatalog == old(sqlTx.mutatedCatalog)
+//@     && sqlTx.lastInsertedPKs == old(sqlTx.lastInsertedPKs) && sqlTx.firstInsertedPKs == old(sqlTx.firstInsertedPKs)
+//@   ensures store_tx: sqlTx.tx == old(sqlTx.tx)
+//@   assigns sqlTx
+
+// `restored_*`: exactly the four fields recorded by Savepoint are restored (sp is the looked-up state; a map lookup
+// yields an ARBITRARY pointer for the engine, even one into *sqlTx, hence the guards sp != nil && !sameobj(sp, sqlTx),
+// which hold for every value Savepoint ever stores).
+// `assigns sqlTx` is a CHECKED frame: the store transaction object sqlTx.tx (write set `entries`, `entriesByKey`,
+// read set) is not written: the writes made after the savepoint are kept. That is the known finding; the demanded
+// postcondition is the contract of verif_savepoint_rollback_undoes_writes below.
+//@ func (*SQLTx).RollbackToSavepoint
+//@   ensures nomap: old(sqlTx.savepoints) == nil ==> r0 != nil
+//@   ensures unknown: (r0 != nil) == (old(sqlTx.savepoints) == nil || !ok)
+//@   ensures restored_rows: r0 == nil && sp != nil && !sameobj(sp, sqlTx) ==> sqlTx.updatedRows == sp.updatedRows
+//@   ensures restored_ddl: r0 == nil && sp != nil && !sameobj(sp, sqlTx) ==> sqlTx.mutatedCatalog == sp.mutatedCatalog
+//@   ensures restored_last: r0 == nil && sp != nil && !sameobj(sp, sqlTx) ==> sqlTx.lastInsertedPKs == sp.lastInsertedPKs
+//@   ensures restored_first: r0 == nil && sp != nil && !sameobj(sp, sqlTx) ==> sqlTx.firstInsertedPKs == sp.firstInsertedPKs
+//@   ensures err_noop: r0 != nil ==> unchanged(sqlTx)
+//@   ensures store_tx: sqlTx.tx == old(sqlTx.tx)
+//@   assigns sqlTx
+
+//@ func (*SQLTx).ReleaseSavepoint
+//@   ensures nomap: old(sqlTx.savepoints) == nil ==> r0 != nil
+//@   ensures noop: unchanged(sqlTx)
+//@   assigns sqlTx
+
+// The property: ROLLBACK TO SAVEPOINT undoes exactly the statements executed after the savepoint, i.e. the write set of
+// the store transaction is the one at the savepoint. Stated over what is expressible: the number of entries of the
+// underlying store.OngoingTx after `Savepoint(n); set(k, v); RollbackToSavepoint(n)` (all three succeeding, k not
+// written before in this transaction) equals the number before.
+// EXPECTED TO FAIL (known finding, reproduction /verif/findings/sql_replay2_test.go.txt): RollbackToSavepoint does not
+// touch sqlTx.tx at all (see its checked frame), so the entry appended by set stays.
+//@ func verif_savepoint_rollback_undoes_writes
+//@   ensures writes_undone: len(sqlTx.tx.entries) == old(len(sqlTx.tx.entries))
+func verif_savepoint_rollback_undoes_writes(sqlTx *SQLTx, name string, key, value []byte, md *store.KVMetadata) {
+	verifAssume(sqlTx != nil && sqlTx.tx != nil)
+	sqlTx.Savepoint(name)
+	err := sqlTx.set(key, md, value)
+	verifAssume(err == nil)
+	err = sqlTx.RollbackToSavepoint(name)
+	verifAssume(err == nil)
+}
+
+// The other way round, as a PROVED statement about today's code: a rollback leaves the store transaction object
+// bit-identical (same pointer, same contents, same number of entries), whatever was written since the savepoint.
+//@ func verif_rollback_keeps_store_tx
+//@   ensures same_store_tx: sqlTx.tx == old(sqlTx.tx)
+//@   ensures store_tx_untouched: unchanged(sqlTx.tx)
+//@   ensures writes_kept: len(sqlTx.tx.entries) == old(len(sqlTx.tx.entries))
+func verif_rollback_keeps_store_tx(sqlTx *SQLTx, name string) {
+	verifAssume(sqlTx != nil && sqlTx.tx != nil)
+	_ = sqlTx.RollbackToSavepoint(name)
+}
+
+// ---------------------------------------------------------------------------------------------------------
+// 7. Commit / Cancel
+//
+// The store transaction is reached through three calls into embedded/store (other package, contracts owned by C05):
+//   Commit: (*store.OngoingTx).RequireMVCCOnFollowingTxs, then (*store.OngoingTx).AsyncCommit exactly once (straight-line
+//           code: one call site, not in a loop, every path that passes the first check reaches it);
+//   Cancel: (*store.OngoingTx).Cancel exactly once.
+// "closed" of a SQLTx is sqlTx.tx.closed (SQLTx has no flag of its own: Closed() forwards).
+
+// ASSUMED frame (os.File.Close / os.Remove / (*os.File).Name are library calls): writes sqlTx.tempFiles only.
+//@ func (*SQLTx).removeTempFiles
+//@   ensures keep: sqlTx.tx == old(sqlTx.tx) && sqlTx.engine == old(sqlTx.engine) && sqlTx.txHeader == old(sqlTx.txHeader)
+//@     && sqlTx.catalog == old(sqlTx.catalog) && sqlTx.updatedRows == old(sqlTx.updatedRows) && sqlTx.mutatedCatalog == old(sqlTx.mutatedCatalog)
+//@   assigns internal, sqlTx
+
+// Cancel: (*store.OngoingTx).Cancel is inlined (no contract block yet): it refuses a closed tx, otherwise marks it
+// closed BEFORE closing the snapshots, so the tx is closed on every path.
+//@ func (*SQLTx).Cancel
+//@   requires sqlTx.tx != nil
+//@   ensures already: old(sqlTx.tx.closed) ==> r0 != nil && (r0 == store.ErrAlreadyClosed || r0 == old(store.ErrAlreadyClosed))
+//@   ensures closed: sqlTx.tx.closed
+//@   ensures same_tx: sqlTx.tx == old(sqlTx.tx)
+
+// Commit: a closed tx is refused by the first store call (RequireMVCCOnFollowingTxs) before anything else happens.
+// After the AsyncCommit call nothing can be said by the engine: (*ImmuStore).commit (C07) has no frame, so the heap is
+// havocked; `closed` and `same_tx` are claimed but their obligations at the return sites behind that call are
+// excluded in the part file. Reading the inlined (*OngoingTx).commit shows one path on which `closed` is genuinely
+// false: a snapshot Close error returns BEFORE `tx.closed = true` (ongoing_tx.go:741-745).
+// ctx != nil: context contract of the standard library ("do not pass a nil Context").
+//@ func (*SQLTx).Commit
+//@   requires sqlTx.tx != nil && sqlTx.engine != nil && ctx != nil
+//@   ensures already: old(sqlTx.tx.closed) ==> r0 != nil && (r0 == store.ErrAlreadyClosed || r0 == old(store.ErrAlreadyClosed))
+//@   ensures already_noop: old(sqlTx.tx.closed) ==> sqlTx.txHeader == old(sqlTx.txHeader)
+//@   ensures closed: sqlTx.tx.closed
+//@   ensures same_tx: sqlTx.tx == old(sqlTx.tx)
